@@ -160,6 +160,17 @@ func makePayload(k payloadKind, tag int) (msg any, serialisable bool) {
 		}
 		return &durationpb.Duration{Seconds: int64(tag), Nanos: int32(tag % 1000)}, true
 	case pkNonProto:
+		switch tag % 4 {
+		case 0: // values of types that cannot even be compared or hashed
+			return []string{"not", "a", "proto", "message", fmt.Sprint(tag)}, false
+		case 1:
+			return map[string]int{"tag": tag}, false
+		case 2:
+			return struct {
+				Tag  int
+				List []int
+			}{tag, []int{tag}}, false
+		}
 		return fmt.Sprintf("i am not a proto message %d", tag), false
 	case pkBadUTF8:
 		return &actor.PID{Address: "bad\xff\xfe", ID: fmt.Sprint(tag)}, false
